@@ -14,6 +14,9 @@ CHECKS = {
  "C11": dict(cat="exploration", technique="runtime monitor: generator-known-answer (intended export sets and public reachability) + relational AST comparison of every signature slot between source and emitted module",
    text="Same generated packages and corpus as C09. Entrypoints: the emitted export names (star re-exports expanded over emitted modules) equal the generator's intended set; every emitted module exports a subset of its original; kinds are kept; every declaration the generator's reachability model marks public is declared in the output and every other one is not; every signature slot (parameter, return, property, type-parameter list, extends / implements, interface body, alias body, enum member names; overload-indexed, namespaces recursed) present in both is compared by span-insensitive AST equality, with only the documented `T | undefined` normalisation for defaulted parameters allowed.",
    note="overload implementation signatures are not public and are skipped", ref="§7 C11"),
+ "C12": dict(cat="exploration", technique="runtime monitor: histories over a shared recording FastCheckCache compared step by step with cache-less runs; all-or-nothing structural check per package; dependency re-scan of emitted text; fresh-thread determinism repeat",
+   text="Worlds of 1-3 generated packages with cross-package links and a main module; histories of 2-5 edits of the package model (implementation-only, signature, spoil / un-spoil, export toggles, link add / remove / privatise, which entrypoints main imports). After every step the real build + build_fast_check_type_graph runs without cache, with a RecordingCache shared by the history (cold / warm / stale entries classified from its get/set log; one history in six starts poisoned), again on the warm cache, and cache-less in a fresh thread. Per analysed package: output for some module implies no diagnostics and output for every public-API file of the generator's model; no output implies diagnostics on every entrypoint in use; recorded dependencies equal the specifiers the emitted text declares; with and without cache the modules with output, their text, source maps and dependency JSON are identical; the repeat is identical.",
+   note="entrypoints are the exports the graph uses (packages.package_exports); diagnostic texts are not compared across cache modes; failure-entry dependency staleness is a known finding", ref="§7 C12"),
  "C13": dict(cat="exploration", technique="runtime monitor: serde round trip over generated and hand-built module infos; v1 upgrade known-answer; relational check embedded-vs-parsed registry builds",
    text="(a) from_value(to_value(info)) == info with stable JSON for the ModuleInfo of every generated program and for hand-built values covering every field/variant; (b) generated moduleGraph1 entries through JsrPackageVersionInfo::module_info must keep every @deno-types (text and range); (c) each generated registry world is built from parsed sources and from module info embedded as moduleGraph2/moduleGraph1 (computed by this analyser), with registry files cached and uncached: serialised graphs identical.",
    note="embedded info is produced by the same analyser from the served sources (the statement's proviso)", ref="§4 C13"),
